@@ -47,6 +47,8 @@ type File struct {
 	Consts  map[string]Val      `json:"consts"`
 	Funcs   map[string]*Func    `json:"funcs"`
 	Structs map[string][]string `json:"structs"`
+	// composite literals of function bodies and package-level variable initialisers (composite.go)
+	Composites []Composite `json:"composites"`
 }
 
 var timeUnits = map[string]int64{
@@ -144,6 +146,10 @@ func funcName(d *ast.FuncDecl) string {
 }
 
 func main() {
+	if len(os.Args) == 4 && os.Args[1] == "-gallina" {
+		gallinaMain(os.Args[2], os.Args[3])
+		return
+	}
 	if len(os.Args) < 3 {
 		fmt.Fprintln(os.Stderr, "usage: extract <repo-root> <file.go>...")
 		os.Exit(2)
@@ -284,6 +290,7 @@ func main() {
 			})
 			file.Funcs[funcName(fd)] = fn
 		}
+		file.Composites = collectComposites(fset, f)
 		out[rel] = file
 	}
 	enc := json.NewEncoder(os.Stdout)
